@@ -13,7 +13,7 @@ BUDGET = {'quick': 1500, 'thorough': 5000}
 RULE = ('Hypothesis-generated frame scripts over 2-4 recording WorldHandle subclasses (each load builds, with '
         'dispatching disabled as WorldHandle.load does, a world with recording processors before/after, '
         'OnUpdateProcessor, a scripted actor processor, a CoroutineProcessor running a scripted coroutine, and a '
-        'listener component for on_add, on_world_load, on_switch_in, on_switch_out, on_update, probe; every other '
+        'listener component for on_add, on_world_load, on_switch_in, on_switch_out, on_update, probe, and two further on_update listeners (whichever is served first acts; after a switch request no other listener of that broadcast may run); every other '
         'handle loads a World subclass whose instances are falsy; or all handles load a World subclass with value '
         'equality - equal-but-distinct worlds) run by a '
         'SimpleLoop on a generated clock: per frame one of nothing / switch(h, clear_current, clear_next) / raise '
@@ -34,6 +34,8 @@ ASSUMPTIONS = [
     'the number of load() calls is recorded but not asserted',
     'switch() is called with from_world=None (default loop) or with the current world',
     'probes are dispatched from outside the loop frame bodies only through the scripted actors',
+    'which of the three on_update listeners of a world is served first follows the library\'s set order (object '
+    'addresses): the verdict on a tree where the property holds does not depend on it',
 ]
 SOURCES = ['processor', 'on_update', 'coroutine']
 
@@ -121,6 +123,18 @@ class Listener:
         self.run.act('on_update', self.world)
 
 
+@desper.event_handler('on_update')
+class Extra:
+    """further on_update listeners of the same world: whichever listener is served first acts; once it asked for the
+    switch the frame is abandoned, so no other listener of that broadcast runs any more"""
+    def __init__(self, run, world, k):
+        self.run, self.world, self.k = run, world, k
+
+    def on_update(self, dt):
+        self.run.log.append(('P', self.run.inst_of[id(self.world)], 'on_update listener %d' % self.k))
+        self.run.act('on_update', self.world)
+
+
 class EmptyLookingWorld(desper.World):
     """a legal World subclass whose instances are falsy objects (think __len__ = number of living things)"""
 
@@ -186,6 +200,8 @@ class RecWorldHandle(desper.WorldHandle):
         lst = Listener(run)
         lst.world = world
         world.create_entity(lst)
+        for k in (1, 2):
+            world.create_entity(Extra(run, world, k))
         world._cp, world._gen = cp, run.coroutine(world)
         cp.start(world._gen)
 
